@@ -624,7 +624,11 @@ void rename(const std::string& old_filename, const std::string& new_filename) {
 
 void unlink(const string& filename, bool recursive) {
   if (recursive) {
-    if (isdir(filename)) {
+    // Use lstat semantics here: a symbolic link to a directory is removed as
+    // a link. Following it would delete the contents of the link's target
+    // (which is not part of this tree), and the rmdir() below would then fail
+    // with ENOTDIR.
+    if (lisdir(filename)) {
       for (const string& item : list_directory(filename)) {
         unlink(filename + "/" + item, true);
       }
